@@ -325,5 +325,5 @@ def run(tier, seed):
         rep.violation("loop-agnostic:import", {"why": "importing asyncstdlib touched an event loop: %s" % rc.stderr[-400:]})
     if not proofs_ok:
         rep.violation("proof-broken", {"broken": rep.notes.get("broken_file", "?") + " (static obligations over Gen/AwaitGraph.v: await_graph_closed / await_impls_transparent / asyncio_only_detection)",
-                                       "log": rep.notes.get("build_log_tail", "")[-1500:]}, no_input=not fails)
+                                       "log": rep.notes.get("build_log_tail", "")[-1500:]}, no_input=not rep.has_failing_input())
     return rep.finish()
